@@ -27,6 +27,7 @@ type Sorts struct {
 	mapOrder    []string
 	opaque      map[string]bool
 	frozenBoxes bool
+	zarrs       map[string][2]string
 }
 
 type structInfo struct {
@@ -282,7 +283,7 @@ func (s *Sorts) zero(t types.Type) string {
 	case *types.Slice:
 		return "nil.Slice"
 	case *types.Array:
-		return "((as const " + s.sortOf(t) + ") " + s.zero(u.Elem()) + ")"
+		return s.constArray(s.sortOf(u.Elem()), s.zero(u.Elem()))
 	case *types.Struct:
 		name := s.sortOf(t)
 		info := s.structs[name]
@@ -305,6 +306,21 @@ func (s *Sorts) zero(t types.Type) string {
 		return "nil.Chan"
 	}
 	panic(fmt.Sprintf("zero: unhandled %v", t))
+}
+
+// constArray is the array that maps every index to the zero term. cvc5 only
+// accepts literal values under (as const ...), so zero terms that mention
+// declared constants (nil.Func, f64.zero ...) get a declared array instead.
+func (s *Sorts) constArray(elemSort, zero string) string {
+	if !strings.Contains(zero, "nil.Func") && !strings.Contains(zero, "f64.zero") && !strings.Contains(zero, "nil.Chan") && !strings.Contains(zero, "nil.Complex") {
+		return "((as const (Array Int " + elemSort + ")) " + zero + ")"
+	}
+	name := "zarr<" + sortTag(elemSort) + ">"
+	if s.zarrs == nil {
+		s.zarrs = map[string][2]string{}
+	}
+	s.zarrs[name] = [2]string{elemSort, zero}
+	return name
 }
 
 // intRange returns (lo, hi, ok) for sized integer types.
